@@ -148,11 +148,17 @@ for it in range(R.n(10, 120)):
         total = N * T * nb + taps * nb
         v = src.get_samples(total)
         worst, ndiff, ntot = 0, 0, 0
+        sat_ok, nsat = True, 0
+
+        def q_ref(x, tstd, dstd, bits):
+            """independent quantiser: round-half-even of the rescaled value (zero means), and the unclipped rounded value"""
+            r = np.round(np.asarray(x, dtype=float) * tstd / dstd)
+            return np.clip(r, -2 ** (bits - 1), 2 ** (bits - 1) - 1), r
         for a in range(nant):
             for p in range(npol):
                 x = np.array(v[a][p], dtype=float)
                 if dig:
-                    x = stg.voltage.quantization.quantize_real(x, target_mean=0, target_std=be.digitizer[a][p].target_std, num_bits=8, data_mean=0.0, data_std=1.05)
+                    x, _ = q_ref(x, be.digitizer[a][p].target_std, 1.05, 8)
                 h = np.array(be.filterbank[a][p].window)
                 X = np.zeros((N * T, nb // 2), dtype=complex)
                 for n_ in range(N * T):
@@ -160,11 +166,19 @@ for it in range(R.n(10, 120)):
                     F = np.fft.fft(fir) / nb ** 0.5
                     X[n_] = F[:nb // 2]
                 Xs = X[:, sc:sc + nc]
-                rr = stg.voltage.quantization.quantize_real(Xs.real, target_mean=0, target_std=be.requantizer[a][p].quantizer_r.target_std, num_bits=nbits, data_mean=0.0, data_std=7.0)
-                ri = stg.voltage.quantization.quantize_real(Xs.imag, target_mean=0, target_std=be.requantizer[a][p].quantizer_i.target_std, num_bits=nbits, data_mean=0.0, data_std=7.0)
+                rr, ur = q_ref(Xs.real, be.requantizer[a][p].quantizer_r.target_std, 7.0, nbits)
+                ri, ui = q_ref(Xs.imag, be.requantizer[a][p].quantizer_i.target_std, 7.0, nbits)
                 ref = (rr + 1j * ri).T
-                diff = np.abs(got[a * nc:(a + 1) * nc, :, p] - ref)
+                g_ = got[a * nc:(a + 1) * nc, :, p]
+                diff = np.abs(g_ - ref)
+                # components saturating well beyond either end of the code range must sit exactly on that end (no rounding ambiguity there)
+                lo_, hi_ = -2 ** (nbits - 1), 2 ** (nbits - 1) - 1
+                for gv, uv in ((g_.real, ur.T), (g_.imag, ui.T)):
+                    m_lo, m_hi = uv <= lo_ - 1, uv >= hi_ + 1
+                    nsat += int(m_lo.sum() + m_hi.sum())
+                    sat_ok = sat_ok and bool(np.all(gv[m_lo] == lo_)) and bool(np.all(gv[m_hi] == hi_))
                 worst = max(worst, float(diff.max())); ndiff += int((diff > 0).sum()); ntot += diff.size
         # rounding at exact .5 boundaries may differ by one unit between FFT implementations: allow isolated +-1 (counted), nothing larger
         R.check('pipeline/equals-straight-line-reference', c, worst <= 1.0 and ndiff <= max(2, ntot // 500), [worst, ndiff, ntot])
+        R.check('pipeline/saturated-components-sit-on-the-ends-of-the-code-range', dict(c, saturated=nsat), sat_ok, nsat, nontrivial=nsat > 0)
 R.finish()
